@@ -154,6 +154,43 @@ def _tjob(chunk):
     return n, bad
 
 
+K_KW_PROPERTY = 'C04 N: a line terminator after return/break/continue/throw used as a property name in an object literal inserts a semicolon'
+NL_EXTRA = [('ID', 'EQ', 'LBRACE', kw, 'COLON', 'NUMBER', 'RBRACE', 'SEMI') for kw in ('RETURN', 'BREAK', 'CONTINUE', 'THROW')] + \
+           [('ID', 'EQ', 'ID', 'PERIOD', kw, 'PLUS', 'NUMBER', 'SEMI') for kw in ('RETURN', 'BREAK', 'CONTINUE', 'THROW')] + \
+           [('ID', 'EQ', 'LBRACE', 'GETPROP', 'RETURN', 'LPAREN', 'RPAREN', 'LBRACE', 'RBRACE', 'RBRACE', 'SEMI')]
+
+
+def _njob(chunk):
+    """leg N: in a fully punctuated program a line terminator inserted between two tokens changes nothing, except directly after a
+    restricted keyword in its statement role and directly before ++ / -- (7.9.1); gaps before a regex literal are C05's"""
+    sp = _TL['sp']
+    bad, n = [], 0
+    for w in chunk:
+        toks = [sp[t] for t in w]
+        try:
+            ref = c05mod.text_tree(' '.join(toks))
+        except Exception:
+            continue
+        for g in range(1, len(w)):
+            prev, nxt = w[g - 1], w[g]
+            if nxt in ('PLUSPLUS', 'MINUSMINUS', 'REGEX'):
+                continue
+            as_property = prev in RESTRICTED and ((g >= 2 and w[g - 2] in ('PERIOD', 'GETPROP', 'SETPROP')) or nxt == 'COLON')
+            if prev in RESTRICTED and not as_property:
+                continue
+            for lt in ('\n', '\r\n', '\u2028'):
+                text = ' '.join(toks[:g]) + lt + ' '.join(toks[g:])
+                n += 1
+                try:
+                    got = c05mod.text_tree(text)
+                except Exception as e:
+                    got = '%s: %s' % (type(e).__name__, e)
+                if got != ref:
+                    bad.append((w, g, text, got[:160], as_property))
+                    break
+    return n, bad
+
+
 def structures(Tb, G, sp, th):
     ctx = c03mod.contexts(G)
     short = {}
@@ -295,6 +332,13 @@ def concrete_asi_check(text):
 
 def replay(d):
     w = d['input']
+    if 'nl_text' in w:
+        ref = c05mod.text_tree(w['plain'])
+        try:
+            got = c05mod.text_tree(w['nl_text'])
+        except Exception as e:
+            got = '%s: %s' % (type(e).__name__, e)
+        return got != ref, 'text %r: %s; without the inserted line terminator (%r) the tree is %s' % (w['nl_text'], got[:200], w['plain'], ref[:120])
     if 'raw_kinds' in w:
         msgs = concrete_asi_check(w['text'])
         return bool(msgs), 'text %r (raw token kinds %s): %s' % (w['text'], ' '.join(w['raw_kinds']), '; '.join(msgs[:2]) or 'lexer-level obligations hold')
@@ -342,6 +386,25 @@ def main():
             run.violation(key, detail[:500], rpd)
         else:
             run.inconclusive_('text-level difference did not reproduce: %s %s' % (key, detail[:200]))
+    # ---- leg N: line terminators inserted where 7.9 gives them no effect
+    nstructs = [w for w in structs if len(w) <= 10] + [w for w in NL_EXTRA if gx.lr_run(Tb, list(w)) is not None]
+    nres = common.pmap(_njob, [nstructs[i::64] for i in range(64)])
+    ntext += sum(r[0] for r in nres)
+    npending = {}
+    for n_, bad in nres:
+        for w, g, text, got, as_property in bad:
+            if as_property and g < len(w) and w[g] == 'COLON':
+                key = K_KW_PROPERTY
+            else:
+                key = 'C04 N: a line terminator between %s and %s changes the parse' % (w[g - 1], w[g])
+            npending.setdefault(key, {'property': 'C04', 'input': {'nl_text': text, 'plain': ' '.join(sp[t] for t in w)}})
+    for key, rpd in list(npending.items())[:30]:
+        ok, detail = rp.run_in_subprocess(rpd)
+        if ok:
+            run.violation(key, detail[:500], rpd)
+        else:
+            run.inconclusive_('line-terminator difference did not reproduce: %s' % key)
+    run.leg('N_line_terminator_transparency', structures=len(nstructs))
     # ---- leg S
     src = boot.scratch_dir()
     sx.install(src)
